@@ -503,6 +503,12 @@ val assoc_l_push :
 
 val norm_cond : z -> z -> z -> bool
 
+val phase2_inner : z -> nat -> nat list -> (expr * bool) -> expr * bool
+
+val phase2_step :
+  z -> ((expr * (z list * nat list) list) * bool) -> nat -> (expr * (z
+  list * nat list) list) * bool
+
 val norm_phase2 : z -> expr -> expr
 
 val e_normalize : z -> expr -> expr
@@ -514,6 +520,12 @@ val amap_list : amap -> expr
 val mul_parts : z -> expr -> expr -> expr
 
 val e_symb_evaluate : z -> expr -> (z -> expr option) -> expr option
+
+val singles_unique_b : z -> expr -> bool
+
+val const_first_b : expr -> bool
+
+val shape_ok_b : expr -> bool
 
 type ipst = { ip_tape : tmap; ip_ptr : z; ip_io : iost; ip_budget : z;
               ip_stack : z list list }
